@@ -51,8 +51,17 @@ TOL_DYADIC = F(1, 2 ** 40)
 TOL_FLOAT = F(1, 10 ** 9)
 
 
+RT = []
+
+
 def setup(ctx):
-    pass
+    from vlib import workers
+    RT.append(workers.rtsim_worker())
+
+
+def teardown(ctx):
+    for w in RT:
+        w.close()
 
 
 def close(a, b, tol):
@@ -155,8 +164,53 @@ def run_nrt(p, v):
     return {'nontrivial': nt, 'labels': labels}
 
 
+def run_rt(case, v):
+    p = case['prog']
+    try:
+        m = prog_model.Model(p).run()
+    except prog_model.Ambiguous:
+        raise Reject()
+    horizon = float(m.last_event) + 1.0
+    tol = TOL_FLOAT if uses_nondyadic(p) else TOL_DYADIC
+    jit = 0.0
+    outs = []
+    for tape in (case['tape_a'], case['tape_b']):
+        out = RT[0].ask({'prog': p, 'tape': tape, 'horizon': horizon})
+        if 'deadlock' in out:
+            v.fail('rt_deadlock', out['deadlock'])
+            return {'nontrivial': False, 'labels': ['deadlock']}
+        if 'error' in out:
+            v.fail('rt_raised', out['error'] + out.get('tb', '')[-600:])
+            return {'nontrivial': False, 'labels': ['error']}
+        if out['errors']:
+            v.fail('rt_clock_thread_died', str(out['errors']))
+        compare_logs(out['trace'], m.trace, tol, v, 'rt', ordered=False)
+        jit += out['jitter']
+        outs.append(out)
+    if len(outs) == 2:
+        la = [(x['r'], x['tag'], x['secs'], x['beats'])
+              for x in outs[0]['trace'] if x['kind'] == 'log']
+        lb = [(x['r'], x['tag'], x['secs'], x['beats'])
+              for x in outs[1]['trace'] if x['kind'] == 'log']
+        if sorted(la, key=str) != sorted(lb, key=str) and not v.items:
+            v.fail('rt_depends_on_schedule', f'{la} vs {lb}')
+    nt = nontrivial_prog(p) and jit > 0
+    labels = ['jitter' if jit > 0 else 'no_jitter']
+    if nontrivial_prog(p):
+        labels.append('tempo_or_cross_clock')
+    return {'nontrivial': nt, 'labels': labels}
+
+
+def rt_cases(nondyadic=False):
+    tape = st.lists(st.integers(0, 11), min_size=0, max_size=60)
+    return st.fixed_dictionaries({
+        'prog': proggen.timing_program(apps=False, nondyadic=nondyadic),
+        'tape_a': tape, 'tape_b': tape})
+
+
 def stages(ctx):
     return [
+        Stage('rt', run_rt, rt_cases(), quick=150, thorough=1500),
         Stage('nrt', run_nrt, proggen.timing_program(), quick=600,
               thorough=5000),
         Stage('nrt_float', run_nrt, proggen.timing_program(nondyadic=True),
